@@ -130,7 +130,10 @@ def phase_interleave(args):
         prot = make_sd(loop)
         model = Model()
         start = 0xFFFF - 3 - seed % 2
-        for d in dests:
+        # "fresh": the last destination is contacted for the first time inside the explored region, i.e. in some orders
+        # only after another destination's wrap
+        positioned = dests[:-1] if len(args) > 3 and args[3] == "fresh" else dests
+        for d in positioned:
             for _ in range(start - 1):
                 got = send_and_decode(prot, d)
                 want = [((MCAST if d is None else d),) + model.take(d) + (1,)]
@@ -319,7 +322,8 @@ def _run(job):
 
 def check(ctx):
     jobs = [("cycle", (ctx.seed, 20)), ("interleave", (ctx.seed, 3, 6)), ("notify", (ctx.seed, 8200)),
-            ("sendrecv", (ctx.seed, ctx.pick(4, 6))), ("interleave", (ctx.seed, 3, 4, "v6scope"))]
+            ("sendrecv", (ctx.seed, ctx.pick(4, 6))), ("interleave", (ctx.seed, 3, 4, "v6scope")),
+            ("interleave", (ctx.seed, 3, 5, "fresh")), ("interleave", (ctx.seed + 1, 2, 6, "fresh"))]
     if ctx.thorough:
         jobs += [("interleave", (ctx.seed, 4, 8)), ("interleave", (ctx.seed + 1, 2, 12)),
                  ("notify", (ctx.seed, 17000))]
